@@ -8,21 +8,58 @@ from vlib import *
 from workload import Mirror
 
 
+def check_ids(m, ops, res):
+    """table ids and first pages as the catalog reports them vs the extracted catalog model
+    (first pages are inputs to the model: taken from the implementation in creation order)"""
+    ans = m.db.cmd("tables")
+    if not ans.startswith("ok:"):
+        m.fail("tables", "catalog listing failed: " + ans); return
+    ents = [e.split(":") for e in ans[3:].split(",") if e]
+    by_name = {e[1]: (int(e[0]), int(e[2])) for e in ents}
+    oids = [int(e[0]) for e in ents]
+    pages = [int(e[2]) for e in ents]
+    if len(set(oids)) != len(oids):
+        m.fail("tables", "two tables share an identifier: " + ans); return
+    if len(set(pages)) != len(pages):
+        m.fail("tables", "two tables share their first page: " + ans); return
+    for name in m.tables:
+        if name not in by_name:
+            m.fail("tables", "table %s is no longer in the catalog: %s" % (name, ans)); return
+    # model prediction
+    created = ["tb%d" % i for i in range(len(m.tables))]
+    k = 0
+    mops = []
+    for o in ops:
+        if o == "C":
+            mops.append("C %d" % by_name[created[k]][1]); k += 1
+        else:
+            mops.append("R")
+    line = "%d;%s" % (by_name.get("columns_catalog", (0, 1))[1], ";".join(mops))
+    rc, out = run_model("c10_driver", line + "\n")
+    want = out.strip()
+    got = ",".join("%d:%d" % (o, p) for o, p in sorted((int(e[0]), int(e[2])) for e in ents))
+    res.extra["id_checks"] = res.extra.get("id_checks", 0) + 1
+    if rc != 0 or want != got:
+        res.mismatches.append((line, "catalog ids/first pages: implementation %s | model %s" % (got, want)))
+
+
 def history(rng, res, tier):
     m = Mirror(rng, mem_kb=rng.choice([400, 1200]))
     try:
         if not m.open():
             return m.fails
         ntab = 0
+        ops = []
         steps = rng.randrange(6, 14)
         desc = []
         for s in range(steps):
             a = rng.random()
             if a < 0.35 or ntab == 0:
                 name = "tb%d" % ntab
-                if not m.create(name, via_sql=rng.random() < 0.6, ncols=rng.randrange(1, 7)):
+                if not m.create(name, via_sql=rng.random() < 0.6, ncols=rng.randrange(1, 7), kinds_pool="ns"):
                     break
                 ntab += 1
+                ops.append("C")
                 desc.append("create(%s)" % ",".join(m.tables[name][0]))
                 for _ in range(rng.randrange(0, 8)):
                     m.insert(name)
@@ -40,13 +77,16 @@ def history(rng, res, tier):
                 desc.append("restart(clean)" if clean else "restart(crash)")
                 if not m.restart(clean=clean):
                     break
+                ops.append("R")
                 for name in m.tables:
                     m.verify(name, nq=3, what="after restart")
+                check_ids(m, ops, res)
             if m.fails or m.db.dead:
                 break
         if not m.fails and not m.db.dead:
             for name in m.tables:
                 m.verify(name, nq=3, what="at end")
+            check_ids(m, ops, res)
         if m.db.dead and not m.fails:
             m.fail(m.db.log[-1], "engine stopped answering: " + m.db.dead)
         nrestart = sum(1 for d in desc if d.startswith("restart"))
@@ -71,6 +111,26 @@ def run(res, replay=None):
     if not go_ok:
         return
     rng = random.Random(res.seed)
+    # corpus: the fixed defect F-CAT-OID (create two tables, restart, create a third, read the first)
+    m = Mirror(random.Random(7))
+    try:
+        if m.open():
+            for nm in ("tb0", "tb1"):
+                m.create(nm, via_sql=True, ncols=2, types=["i", "s"])
+                m.insert(nm)
+            m.restart(clean=True)
+            m.create("tb2", via_sql=True, ncols=2, types=["i", "s"])
+            m.insert("tb2")
+            for nm in ("tb0", "tb1", "tb2"):
+                m.verify(nm, nq=2, what="corpus F-CAT-OID")
+            check_ids(m, ["C", "C", "R", "C"], res)
+            if m.db.dead and not m.fails:
+                m.fail("corpus F-CAT-OID", "engine stopped answering: " + m.db.dead)
+        res.note_case("corpus F-CAT-OID", True)
+        for d, w in m.fails:
+            res.oracle_failures.append((d, "F-CAT-OID is back? " + w))
+    finally:
+        m.close()
     n = 30 if res.tier == "quick" else 300
     for i in range(n):
         for d, w in history(rng, res, res.tier):
